@@ -45,6 +45,24 @@ def gen_stream(rng):
     return lines
 
 
+GIT_FIRST = ("commit ", "diff --git ", "diff --cc ", "diff --combined ")
+
+
+def theorem_applies(lines):
+    """hypotheses of Props/C02.lean `color_only_line_for_line` (first line identifies a git diff; every `@@` line is followed
+    by a hunk-body line; the stream does not end in one), evaluated on the generated stream"""
+    if not lines or not lines[0].startswith(GIT_FIRST):
+        return "first-line-not-git"
+    for i, l in enumerate(lines):
+        if l.startswith("@@"):
+            if i + 1 >= len(lines):
+                return "ends-in-hunk-header"
+            nx = lines[i + 1]
+            if not (nx == "" or nx[0] in " +-\\"):
+                return "hunk-header-not-followed-by-body"
+    return "yes"
+
+
 def run(ctx, rep):
     rep.rule = ("streams git can hand to a pager / interactive.diffFilter (plain or git-coloured diffs, commit metadata + diffstat, all file "
                 "events, combined diffs, plain diff -u, lightly mutated ones) x --color-only crossed with side-by-side, line numbers, "
@@ -70,6 +88,7 @@ def run(ctx, rep):
             continue
         dis = M.compare(cfg, impl, model)
         rep.corr_case("machine.run", not dis, dict(case, disagreement=dis[:2]))
+        rep.count("theorem-hypotheses:" + theorem_applies(lines))
         nout = impl.out.count(b"\n")
         if nout != len(lines):
             ambiguous = not any(l.startswith("diff --git") or l.startswith("diff --cc") for l in lines) and \
